@@ -91,6 +91,8 @@ func runC01(c *Ctx) {
 	R.Rule("C01.R9", "the library never registers an element pattern itself: the functions that store into the element-pattern table (the exported pattern builders) are not called from within the module")
 	noInternalPatternRegistration(c, "C01.R9")
 	R.Rule("C01.R8", "an element enters the allowlist only for a reason: in the attribute builders (OnElements, OnElementsMatching) an element's table entry is created only inside the loop over the attribute names being registered, or under the builder's allow-without-attributes flag — AllowAttrs() with no names must not allowlist anything")
+	R.Rule("C01.R12", "an element's table entry is created under its own key (= C17.R2, cited): every update of a rule table stores append(entry for the same key, x), or an empty entry made only when the entry for that very key was absent — an entry created under another key (the value pattern instead of the element pattern) admits elements the policy never named")
+	R.Cite(map[string]string{"C17.R2": "C01.R12"}, func() { c17AppendOnly(c, model.FindFields(c.P)) })
 	R.Rule("C01.R11", "what every policy starts from allows no element: neither NewPolicy nor init(), nor anything they call, adds an entry to the element table, the element-pattern table or the global attribute table (they create the tables and fill the two default sets only)")
 	newPolicyAllowsNothing(c, "C01.R11")
 	R.Rule("C01.R10", "a policy's element tables are its own (= C17.R4, cited): the maps installed in the element-rule and element-pattern fields are freshly made by the storing function — a table shared with another policy (a cached constructor result, an incomplete copy) admits in one policy the elements allowed in the other")
